@@ -62,6 +62,77 @@ type PacketIn struct {
 	Exts    []ExtIn
 	Payload []byte
 	PadSize uint8
+	// Shared (optional, see ShareStorage): the values are carved out of ONE array by Build —
+	// element i is Arena[ExtOff[i]:][:len], the payload Arena[PayOff:][:len]; an offset of -1 means
+	// separately allocated storage as usual.  The VALUES are those of Exts / Payload either way.
+	Shared *SharedStorage
+}
+
+// SharedStorage: see PacketIn.Shared.
+type SharedStorage struct {
+	Arena  []byte
+	ExtOff []int
+	PayOff int
+}
+
+// ShareStorage rewrites the description so that its extension values (and, half of the time, its
+// payload) are windows into one shared array, the way a caller hands them over who cuts them out of
+// one scratch buffer: `SetExtension(1, b)`, `SetExtension(2, b[:2])`, `SetExtension(3, b[2:])`.
+// Windows may start at the same address with different lengths, overlap, touch or lie apart; the
+// lengths (hence legality for the profile) stay what they were, the contents become those of the
+// windows.  Zero-length values keep their own (nil or empty) storage.  Returns false when there is
+// nothing to share (fewer than two non-empty values).
+func (p *PacketIn) ShareStorage(r *Rand) bool {
+	nonEmpty, total := 0, 0
+	for _, e := range p.Exts {
+		if len(e.Payload) > 0 {
+			nonEmpty++
+			total += len(e.Payload)
+		}
+	}
+	withPayload := len(p.Payload) > 0 && r.Bool()
+	if withPayload {
+		nonEmpty++
+		total += len(p.Payload)
+	}
+	if nonEmpty < 2 {
+		return false
+	}
+	sh := &SharedStorage{Arena: r.Bytes(total + r.Pick(0, 0, 1, 8)), ExtOff: make([]int, len(p.Exts)), PayOff: -1}
+	type win struct{ off, n int }
+	var placed []win
+	place := func(l int) int {
+		s := r.Intn(len(sh.Arena) - l + 1)
+		if len(placed) > 0 {
+			w := placed[r.Intn(len(placed))]
+			switch r.Intn(5) {
+			case 0, 1: // same start, usually another length
+				s = w.off
+			case 2: // right behind it
+				s = w.off + w.n
+			case 3: // overlapping it
+				s = w.off + r.Intn(w.n)
+			}
+		}
+		if s+l > len(sh.Arena) {
+			s = len(sh.Arena) - l
+		}
+		placed = append(placed, win{s, l})
+		return s
+	}
+	for i := range p.Exts {
+		sh.ExtOff[i] = -1
+		if l := len(p.Exts[i].Payload); l > 0 {
+			sh.ExtOff[i] = place(l)
+			p.Exts[i].Payload = cloneBytes(sh.Arena[sh.ExtOff[i]:][:l])
+		}
+	}
+	if withPayload {
+		sh.PayOff = place(len(p.Payload))
+		p.Payload = cloneBytes(sh.Arena[sh.PayOff:][:len(p.Payload)])
+	}
+	p.Shared = sh
+	return true
 }
 
 func writePacketIn(t *Toks, p *PacketIn) {
@@ -96,11 +167,21 @@ func (p *PacketIn) Build() *rtp.Packet {
 	if p.H.CSRC != nil && pkt.Header.CSRC == nil {
 		pkt.Header.CSRC = []uint32{}
 	}
+	var arena []byte
+	if p.Shared != nil {
+		arena = cloneBytes(p.Shared.Arena)
+		if off := p.Shared.PayOff; off >= 0 {
+			pkt.Payload = arena[off:][:len(p.Payload)]
+		}
+	}
 	ids := make([]uint8, len(p.Exts))
 	pls := make([][]byte, len(p.Exts))
 	for i, e := range p.Exts {
 		ids[i] = e.ID
 		pls[i] = cloneBytes(e.Payload)
+		if arena != nil && i < len(p.Shared.ExtOff) && p.Shared.ExtOff[i] >= 0 {
+			pls[i] = arena[p.Shared.ExtOff[i]:][:len(e.Payload)]
+		}
 	}
 	rtp.VerifSetExtensions(&pkt.Header, ids, pls)
 	return pkt
